@@ -1,7 +1,8 @@
-/- C35 driver: `C35 run <disc> <maxsize> [op,…]` (Model), `C35 spec <disc> <maxsize> [op,…]` (Spec) -/
+/- C35 driver: `C35 run <disc> <maxsize> [op,…]` (Model), `C35 spec <disc> <maxsize> [op,…]` (Spec).
+An op is a primitive op of `Model.lean` or `[multi,[call,…]]` (`Multi.lean`: the calls of one loop iteration). -/
 import TornadoModel.Base.Wire
 import TornadoModel.C33.Drv
-import TornadoModel.C35.Spec
+import TornadoModel.C35.Multi
 namespace TornadoModel.C35.Drv
 open TornadoModel TornadoModel.Wire TornadoModel.C35
 open TornadoModel.C33.Drv (encF encEv decDeadline)
@@ -22,6 +23,23 @@ def decOp (v : V) : Option Op := do
   | [.atom "raceTaskDone"] => pure .raceTaskDone
   | [.atom "raceCancel", w] => pure (.raceCancel (← w.nat?))
   | _ => none
+
+def decCall (v : V) : Option Call := do
+  let l ← v.list?
+  match l with
+  | [.atom "put", x, d] => pure (.put (← x.nat?) (← decDeadline d))
+  | [.atom "putNowait", x] => pure (.putNowait (← x.nat?))
+  | [.atom "get", d] => pure (.get (← decDeadline d))
+  | [.atom "getNowait"] => pure .getNowait
+  | [.atom "taskDone"] => pure .taskDone
+  | [.atom "join", d] => pure (.join (← decDeadline d))
+  | [.atom "cancel", w] => pure (.cancel (← w.nat?))
+  | _ => none
+
+def decOp2 (v : V) : Option Op2 :=
+  match v with
+  | .list [.atom "multi", cs] => (cs.list? >>= (·.mapM decCall)).map .multi
+  | _ => (decOp v).map .prim
 
 def decDisc (v : V) : Option Disc :=
   match v with
@@ -46,22 +64,40 @@ def encOut (o : Out) : V :=
 
 def encSpecOut (o : Spec.Out) : V := .list [encRes o.res, .list (o.evs.map encEv)]
 
+/-- per call of a compound op: result and the observers right after the call -/
+def encCallOut (o : Out) : V :=
+  .list [encRes o.res, .int o.qsize, .int o.ngetters, .int o.nputters, .int o.unfinished, .int o.njoiners,
+         .int o.ntimers]
+
+def encOut2 : Out2 → V
+  | .prim o => encOut o
+  | .multi o =>
+    .list [.list (.atom "M" :: o.calls.map encCallOut), .list (o.evs.map encEv), .int o.qsize, .int o.ngetters,
+           .int o.nputters, .int o.unfinished, .int o.njoiners, .int o.ntimers]
+
+/-- Spec side: a primitive op answers `[res, evs]`, a compound op `[[M, res…], evs]` -/
+def encSpecOut2 (op : Op2) (o : List Res × List TornadoModel.C33.Ev) : V :=
+  match op, o.1 with
+  | .prim _, [r] => .list [encRes r, .list (o.2.map encEv)]
+  | _, rs => .list [.list (.atom "M" :: rs.map encRes), .list (o.2.map encEv)]
+
 def handle (toks : List String) : String :=
   match toks.mapM V.parse with
   | none => err "bad-arg"
   | some args =>
     match args with
     | [.atom "run", d, m, ops] =>
-      match decDisc d, m.nat?, ops.list? >>= (·.mapM decOp) with
+      match decDisc d, m.nat?, ops.list? >>= (·.mapM decOp2) with
       | some d, some m, some ops =>
-        let (s, outs) := run (init d m) ops
-        ok [.list (outs.map encOut), .list (s.futs.map encF),
+        let (s, outs) := run2 (init d m) ops
+        ok [.list (outs.map encOut2), .list (s.futs.map encF),
             .list (s.accepted.map (fun n => V.int (Int.ofNat n))), .list (s.delivered.map (fun n => V.int (Int.ofNat n))),
             .int s.done]
       | _, _, _ => err "bad-op"
     | [.atom "spec", d, m, ops] =>
-      match decDisc d, m.nat?, ops.list? >>= (·.mapM decOp) with
-      | some d, some m, some ops => ok [.list ((Spec.run (Spec.init d m) ops).2.map encSpecOut)]
+      match decDisc d, m.nat?, ops.list? >>= (·.mapM decOp2) with
+      | some d, some m, some ops =>
+        ok [.list (List.zipWith encSpecOut2 ops (Spec.run2 (Spec.init d m) ops).2)]
       | _, _, _ => err "bad-op"
     | _ => err "bad-cmd"
 
